@@ -1,9 +1,14 @@
 #!/bin/bash
-# usage: try_mutant.sh <patch.diff> <pid> [tier]  -- applies to /repo, runs the check, reverts.
+# usage: try_mutant.sh <patch.diff> <pid> [tier]
+# Applies the patch in a private scratch worktree of /repo (never /repo itself), runs the check against it
+# with outputs redirected to a scratch directory, and removes the worktree.  Safe to run in parallel.
 set -u
-P=$1; PID=$2; TIER=${3:-quick}
-cd /repo && git status --short | grep -q . && { echo "/repo dirty"; exit 3; }
-git -C /repo apply $P || git -C /repo apply -3 $P || { echo APPLY-FAILED; git -C /repo checkout -- .; exit 4; }
-cd /verif && ./check $PID --tier $TIER 2>&1 | grep -E "VIOLATION|KNOWN|tier=|INFRA" ; RC=${PIPESTATUS[0]}
-git -C /repo checkout -- . ; git -C /repo status --short
+P=$(readlink -f $1); PID=$2; TIER=${3:-quick}
+T=$(mktemp -d /tmp/trymut.XXXXXX)
+git -C /repo worktree add --detach -f $T/wt HEAD >/dev/null 2>&1 || { echo WORKTREE-FAILED; exit 3; }
+git -C $T/wt apply $P || git -C $T/wt apply -3 $P || { echo APPLY-FAILED; git -C /repo worktree remove --force $T/wt; rm -rf $T; exit 4; }
+mkdir -p $T/out $T/evid
+cd /verif && KFAC_REPO=$T/wt KFAC_VERIF_OUT=$T/out KFAC_VERIF_EVID=$T/evid ./check $PID --tier $TIER 2>&1 | grep -E "VIOLATION|KNOWN|tier=|INFRA" ; RC=${PIPESTATUS[0]}
+if [ -d $T/out/replay ]; then mkdir -p /verif/out/mutant_replays; for f in $T/out/replay/*; do cp $f /verif/out/mutant_replays/$(basename $P .diff)_$(basename $f) 2>/dev/null; done; fi
+git -C /repo worktree remove --force $T/wt; rm -rf $T
 echo "rc=$RC"
